@@ -110,8 +110,10 @@ package latency
 //@   arith wrap
 //@   requires WinOK(w) && m != nil && w.stats != nil && (forall k string :: has(w.stats, k) ==> w.stats[k] != nil)
 //@   modifies w.covered, w.count, w.total, w.slots
-//@   invariant 0: WinOK(w) && arr(w.slots) == old(arr(w.slots))
+//@   invariant 0: WinOK(w) && arr(w.slots) == old(arr(w.slots)) && hits("call (*window).slide#0") == old(hits("call (*window).slide#0")) + 1
 //@   ensures [window-stays-well-formed C15] WinOK(w) && arr(w.slots) == old(arr(w.slots))
+//@   ensures [aged-out-slots-are-dropped-before-anything-is-exported C15] ignoreInitialWindowCoverage || w.covered
+//@     ==> hits("call (*window).slide#0") == old(hits("call (*window).slide#0")) + 1
 //@   ensures [slides-only-a-covered-window C15] !ignoreInitialWindowCoverage && !old(w.covered) && (old(len(w.slots)) == 0 || SatDiff(tinst(ts), old(tinst(w.slots[0].start))) < w.size) ==> view(w.slots) == old(view(w.slots)) && w.count == old(w.count) && w.total == old(w.total)
 
 // update folds the running batch into every window and exports the statistics - all of
